@@ -5,7 +5,7 @@
     source are regenerated into Gen/FsWalk_gen.v on every run and the premises [backend_keys_ok], [walk_ok] (and
     the chain parameters) are discharged for them by kernel-checked instance obligations in checks/c19.py. *)
 From Coq Require Import List NArith Bool Permutation.
-From SV Require Import SM.FsChain SM.FsChainProofs SM.FsChainRel SM.FsChainWitness SM.FsChainRaw SM.FsChainCompose.
+From SV Require Import SM.FsChain SM.FsChainProofs SM.FsChainRel SM.FsChainWitness SM.FsChainRaw SM.FsChainCompose SM.FsChainComplete.
 Import ListNotations.
 Open Scope N_scope.
 
@@ -293,3 +293,17 @@ Proof. exact walk_member. Qed.
 Example c19_compose_premises_satisfiable :
   okp [] /\ okp [109; 97; 116] /\ okp [77; 92; 120] /\ dedup_ops_ok [OFold] = true.
 Proof. exact compose_premises_satisfiable. Qed.
+
+(** ... and conversely the walk is complete: whatever the chain serves under a clean name lying inside the folder is
+    listed (up to letter case) with the very File the lookup returns; the chain's lookup itself ignores case and
+    slash kind of a clean name. *)
+Theorem c19_chain_walk_complete : forall dops ms folder q f,
+  dedup_ops_ok dops = true -> Forall sound_member ms -> okp folder ->
+  clean_name q = true -> path_prefix (nkey folder) (nkey q) ->
+  chain_get ms q = Some f ->
+  exists x, In x (chain_walk RelDropSegs dops ms folder) /\ nkey (fst x) = nkey q /\ snd x = f.
+Proof. exact chain_walk_complete. Qed.
+Theorem c19_chain_get_variant : forall ms q q',
+  Forall sound_member ms -> clean_name q = true -> clean_name q' = true -> nkey q = nkey q' ->
+  chain_get ms q = chain_get ms q'.
+Proof. exact chain_get_variant. Qed.
